@@ -2,6 +2,7 @@ package wire
 
 import (
 	"fmt"
+	"hash/fnv"
 	"math/rand"
 	"testing"
 
@@ -12,15 +13,65 @@ import (
 	"verif/harness/vt"
 )
 
+// concreteLen maps an abstract sub-chunk length n of the model (whose variable-length integers use
+// radix `base`) to a concrete byte length with the same digit structure in radix 128: every
+// non-zero digit becomes 1 or the maximal digit 127, zero digits stay zero.  So the model's
+// "n = base" (first two-digit length) becomes exactly 128, "base+1" becomes 129 or 255, ...
+func concreteLen(n, base int, r *rand.Rand) int {
+	out, mul := 0, 1
+	for pos := 0; n > 0; pos++ {
+		d := n % base
+		n /= base
+		if d != 0 {
+			c := 1
+			if pos < 2 && r.Intn(2) == 0 { // keep three-digit lengths small (<= 16384+...)
+				c = 127
+			}
+			out += c * mul
+		}
+		mul *= 128
+	}
+	return out
+}
+
+func digest(b []byte) int {
+	h := fnv.New32a()
+	h.Write(b)
+	return int(h.Sum32() & 0x7fffffff)
+}
+
+func describe(enc int, b []byte) map[string]any {
+	d := map[string]any{"enc": enc, "len": len(b), "h": digest(b), "bytes": []int{}, "full": false}
+	if len(b) <= 40 {
+		d["bytes"] = bytesToInts(b)
+		d["full"] = true
+	}
+	return d
+}
+
 // C39: aggregate chunk encoding round-trips for any presence pattern.
-// Cases: structural shapes from TLC (AggrChunkMC: lens[k] = 0 absent / n units present, t) filled
-// with real XOR chunks of n*unit samples, plus seeded random shapes with larger sub-chunks (so
-// that uvarint lengths need 2 bytes).
+// Cases: (a) structural shapes from TLC (AggrChunkMC: lens[k] = 0 absent / n = abstract length, t,
+// base) concretised to payloads of exact byte lengths on the same side of the powers of 128 as the
+// model's lengths are of the powers of its base; (b) seeded random shapes filled with real XOR
+// chunks of random sample counts.
 func TestC39(t *testing.T) {
 	rnd := vt.Rand()
 	gen := func(yield func(vt.Case)) {
-		for _, c := range vt.TLCCases(t) {
-			c["unit"] = 1
+		cases := vt.TLCCases(t)
+		keep := vt.Pick(1200, len(cases))
+		rnd.Shuffle(len(cases), func(i, j int) { cases[i], cases[j] = cases[j], cases[i] })
+		for i, c := range cases {
+			if i >= keep {
+				break
+			}
+			base := vt.Int(c["base"])
+			lens := vt.Ints(c["lens"])
+			bytesLens := make([]int, 5)
+			for k, n := range lens {
+				bytesLens[k] = concreteLen(n, base, rnd)
+			}
+			c["mode"] = "raw"
+			c["blens"] = bytesLens
 			c["cseed"] = rnd.Int63n(1 << 30)
 			yield(c)
 		}
@@ -32,50 +83,66 @@ func TestC39(t *testing.T) {
 					lens[k] = 1 + rnd.Intn(4)
 				}
 			}
-			yield(vt.Case{"lens": lens, "t": rnd.Intn(5), "unit": []int{1, 7, 40, 130}[rnd.Intn(4)], "cseed": rnd.Int63n(1 << 30)})
+			yield(vt.Case{"mode": "xor", "lens": lens, "t": rnd.Intn(5), "unit": []int{1, 7, 40, 130}[rnd.Intn(4)], "cseed": rnd.Int63n(1 << 30)})
 		}
 	}
 	kf := func(c vt.Case) string { return "" }
 	vt.Run(t, gen, kf, func(c vt.Case) (ev vt.Event) {
 		lens := vt.Ints(c["lens"])
 		typ := vt.Int(c["t"])
-		unit := vt.Int(c["unit"])
 		cr := rand.New(rand.NewSource(vt.Int64(c["cseed"])))
 		var chks [5]chunkenc.Chunk
-		hexes := make([][]int, 5)
-		encs := make([]int, 5)
+		descs := make([]map[string]any, 5)
 		for k := 0; k < 5; k++ {
-			hexes[k] = []int{}
+			descs[k] = describe(0, nil)
 			if lens[k] == 0 {
 				continue
 			}
-			ch := chunkenc.NewXORChunk()
-			app, _ := ch.Appender()
-			ts := int64(cr.Intn(1000))
-			for s := 0; s < lens[k]*unit; s++ {
-				ts += int64(1 + cr.Intn(60000))
-				app.Append(ts, float64(cr.Intn(1000)))
+			var ch chunkenc.Chunk
+			if vt.Str(c["mode"]) == "raw" {
+				// payload of an exact byte length; the aggregate chunk layer treats it as opaque
+				b := make([]byte, vt.Ints(c["blens"])[k])
+				cr.Read(b)
+				var err error
+				ch, err = chunkenc.FromData(chunkenc.EncXOR, b)
+				if err != nil {
+					panic(err)
+				}
+			} else {
+				x := chunkenc.NewXORChunk()
+				app, _ := x.Appender()
+				ts := int64(cr.Intn(1000))
+				for s := 0; s < lens[k]*vt.Int(c["unit"]); s++ {
+					ts += int64(1 + cr.Intn(60000))
+					app.Append(ts, float64(cr.Intn(1000)))
+				}
+				ch = x
 			}
 			chks[k] = ch
-			hexes[k] = bytesToInts(ch.Bytes())
-			encs[k] = int(ch.Encoding())
+			descs[k] = describe(int(ch.Encoding()), ch.Bytes())
 		}
-		ev = vt.Event{"chunks": hexes, "encs": encs}
+		ev = vt.Event{"chunks": descs}
 		defer func() {
 			if r := recover(); r != nil {
-				ev["got"] = map[string]any{"kind": "panic", "msg": fmt.Sprint(r)}
+				ev["got"] = map[string]any{"kind": "panic", "msg": fmt.Sprint(r), "enc": 0, "len": 0, "h": 0, "bytes": []int{}, "full": false}
 			}
 		}()
 		ac := downsample.EncodeAggrChunk(chks)
 		got, err := downsample.AggrChunk(ac.Bytes()).Get(downsample.AggrType(typ))
+		var g map[string]any
 		switch {
 		case err == downsample.ErrAggrNotExist:
-			ev["got"] = map[string]any{"kind": "notexist"}
+			g = describe(0, nil)
+			g["kind"] = "notexist"
 		case err != nil:
-			ev["got"] = map[string]any{"kind": "error", "msg": err.Error()}
+			g = describe(0, nil)
+			g["kind"] = "error"
+			g["msg"] = err.Error()
 		default:
-			ev["got"] = map[string]any{"kind": "chunk", "enc": int(got.Encoding()), "data": bytesToInts(got.Bytes())}
+			g = describe(int(got.Encoding()), got.Bytes())
+			g["kind"] = "chunk"
 		}
+		ev["got"] = g
 		return ev
 	})
 }
